@@ -220,9 +220,10 @@ impl C27 {
                 };
                 let target = gen_text(&mut rng, true, 12);
                 let before = w.reps[r].doc.text(&obj).unwrap_or_default();
+                let mc = if has_multichar_element(&w.reps[r].doc, &obj, enc) { ":multichar-element" } else { "" };
                 crate::monitor::set_subcontext("update_text");
                 if let Err(e) = w.reps[r].doc.update_text(&obj, &target) {
-                    return Err(fail("update_text_succeeds", "update-text-failed", format!("update_text({obj}, {target:?}) failed: {e}")));
+                    return Err(fail("update_text_succeeds", &format!("update-text-failed{mc}"), format!("update_text({obj}, {target:?}) failed: {e}")));
                 }
                 w.stats.bump("probe.update_text");
                 let after = w.reps[r].doc.text(&obj).unwrap_or_default();
@@ -231,7 +232,7 @@ impl C27 {
                     self.nontrivial = true;
                 }
                 if after != target {
-                    return Err(fail("update_text_reaches_target", "update-text-differs", format!("update_text from {before:?} to {target:?} left {after:?}")));
+                    return Err(fail("update_text_reaches_target", &format!("update-text-differs{mc}"), format!("update_text from {before:?} to {target:?} left {after:?}")));
                 }
             }
             1 => {
@@ -245,18 +246,22 @@ impl C27 {
                 } else {
                     Plain::List((0..rng.usize(5)).map(|_| gen_plain(&mut rng, 2, enc)).collect())
                 };
+                // update_object reconciles nested text through update_text: same limitation, same suffix (any text present on
+                // this replica holding such an element - an over-approximation of "inside the updated subtree")
+                let texts: Vec<ObjId> = w.pool.iter().filter(|p| p.typ == OType::Text && w.present(r, &p.id)).map(|p| p.id.clone()).collect();
+                let mc = if texts.iter().any(|t| has_multichar_element(&w.reps[r].doc, t, enc)) { ":multichar-element" } else { "" };
                 crate::monitor::set_subcontext("update_object");
                 let hv = to_hydrate(&target, enc);
                 match w.reps[r].doc.update_object(&obj, &hv) {
                     Ok(()) => {}
-                    Err(e) => return Err(fail("update_object_succeeds", &format!("update-object-failed:{}", sig_of_detail(&format!("{e}"))), format!("update_object({obj}) failed: {e}"))),
+                    Err(e) => return Err(fail("update_object_succeeds", &format!("update-object-failed{mc}:{}", sig_of_detail(&format!("{e}"))), format!("update_object({obj}) failed: {e}"))),
                 }
                 w.stats.bump("probe.update_object");
                 self.digest.str(&format!("{target:?}"));
                 self.nontrivial = true;
                 let t = observe_obj(&w.reps[r].doc, &obj, None).map_err(|e| fail("reads", "read-inconsistency", e.0.clone()))?;
                 if let Some(d) = plain::plain_diff(&target, &plain::of_tree(&t), "") {
-                    return Err(fail("update_object_reaches_target", &format!("update-object-differs:{}", sig_of_detail(&d)), format!("target vs object after update_object: {d}")));
+                    return Err(fail("update_object_reaches_target", &format!("update-object-differs{mc}:{}", sig_of_detail(&d)), format!("target vs object after update_object: {d}")));
                 }
             }
             2 | 3 | 5 => {
@@ -400,9 +405,10 @@ impl C27 {
                     target.push(automerge::iter::Span::Text { text: text.clone(), marks });
                     flat.push((text, mm));
                 }
+                let mc = if has_multichar_element(&w.reps[r].doc, &obj, enc) { ":multichar-element" } else { "" };
                 crate::monitor::set_subcontext("update_spans");
                 if let Err(e) = w.reps[r].doc.update_spans(&obj, automerge::marks::UpdateSpansConfig::default(), target.clone()) {
-                    return Err(fail("update_spans_succeeds", "update-spans-failed", format!("{e}")));
+                    return Err(fail("update_spans_succeeds", &format!("update-spans-failed{mc}"), format!("{e}")));
                 }
                 w.stats.bump("probe.update_spans");
                 self.nontrivial = true;
@@ -432,12 +438,39 @@ impl C27 {
                     .collect();
                 let (want, got) = (merge(flat), merge(got));
                 if want != got {
-                    return Err(fail("update_spans_reaches_target", "update-spans-differs", format!("target spans {want:?} vs spans() {got:?}")));
+                    return Err(fail("update_spans_reaches_target", &format!("update-spans-differs{mc}"), format!("target spans {want:?} vs spans() {got:?}")));
                 }
             }
         }
         Ok(())
     }
+}
+
+
+/// does the text hold an element whose value is a string of more than one character (put/insert of "xy" on a text)?
+/// update_text / update_spans reconcile per character and cannot address part of such an element (known finding)
+fn has_multichar_element(doc: &automerge::AutoCommit, obj: &ObjId, enc: Enc) -> bool {
+    use automerge::ReadDoc;
+    let n = doc.length(obj);
+    let mut i = 0;
+    while i < n {
+        let vals = doc.get_all(obj, i).unwrap_or_default();
+        let mut w = 1;
+        for (k, (v, _)) in vals.iter().enumerate() {
+            if let automerge::Value::Scalar(s) = v {
+                if let automerge::ScalarValue::Str(st) = s.as_ref() {
+                    if st.chars().count() > 1 {
+                        return true;
+                    }
+                    if k + 1 == vals.len() {
+                        w = enc.width(st).max(1);
+                    }
+                }
+            }
+        }
+        i += w;
+    }
+    false
 }
 
 impl Oracle for C27 {
